@@ -392,6 +392,27 @@ theorem crc32_counter_width {τ : Type} (emit : Nat → τ → τ) (mem : List B
 
 example : (5 : Nat) < 2 ^ 32 ∧ 5 ≤ ([1, 2, 3, 4, 5, 6] : List Byte).length := by decide
 
+/-- totality of the `Nat`-length model of the earlier rounds (next to
+`crc32_reads_in_range`, which assumes `length ≤ mem.length`): it completes
+iff `[0, length)` is mapped -/
+theorem crc32_total (mem : List Byte) (length : Nat) (seed : BitVec 32) :
+    crc32 mem length seed =
+      if length ≤ mem.length then some (crc32Words (mem.take length) seed) else none := by
+  by_cases h : length ≤ mem.length
+  · rw [if_pos h, crc32_reads_in_range mem length seed h]
+  · rw [if_neg h, crc32_short mem length seed (by omega)]
+
+/-- the C-width index model and the `Nat`-length model agree on every memory
+and every length of the parameter's type, faults included -/
+theorem crc32_models_agree {τ : Type} (emit : Nat → τ → τ) (mem : List Byte) (n : Nat) (seed : BitVec 32) (t : τ)
+    (hn : n < 2 ^ 32) :
+    (crc32G (listRd mem) emit (BitVec.ofNat 32 n) seed t).map Prod.fst = crc32 mem n seed := by
+  have e : (BitVec.ofNat 32 n).toNat = n := by simp; omega
+  rw [crc32G_spec, e, crc32_total]
+  split <;> rfl
+
+example : (7 : Nat) < 2 ^ 32 := by decide
+
 /-- no routine ever stores into its buffer, and no access is outside `[0, len)`:
 said about the logs the five index-level models return -/
 theorem accesses_are_reads_below_len (mem : List Byte) (l8 s8 : BitVec 8) (l16 s16 : BitVec 16) (l32 s32 : BitVec 32) :
